@@ -22,6 +22,8 @@ import (
 	"os"
 	"reflect"
 	"strings"
+	"text/template"
+	"text/template/parse"
 	"time"
 	"unsafe"
 
@@ -797,11 +799,166 @@ func c14Replay(r *h.Result, path string) error {
 			}
 			c14RunApi(r, cs)
 			r.Case("replay:"+cs.Query, true)
+		case "fmt-model":
+			var cs c14FmtCase
+			if err := json.Unmarshal(o, &cs); err != nil {
+				return err
+			}
+			op, im := c14RunFmt(r, cs)
+			r.Case("replay:"+cs.Template, true)
+			if err := r.Compare("fmt-model", []string{op}, []string{im}, []any{cs}); err != nil {
+				return err
+			}
 		default:
-			return fmt.Errorf("replay: stream %q cannot be replayed (streams with a replay: reexec-traceql, reexec-dirty-logql, reexec-model-metric, retranslate-api)", hd.Stream)
+			return fmt.Errorf("replay: stream %q cannot be replayed (streams with a replay: reexec-traceql, reexec-dirty-logql, reexec-model-metric, retranslate-api, fmt-model)", hd.Stream)
 		}
 	}
 	return nil
 }
 
 var _ = time.Now
+
+// ---------------------------------------------------------------------------------------------------------------
+// fmt-model: LineFormatPlanner.ProcessTpl on one object vs LogQL.processTpl
+
+type c14FmtCase struct {
+	Stream   string `json:"stream"`
+	Template string `json:"template"`
+	K        int    `json:"k"`
+	Dirty    bool   `json:"dirty"`
+}
+
+// the leaves LineFormatPlanner.visitNodes reaches (lists and actions are descended), serialised for the model
+func c14TplLeaves(tpl string) (ser string, names []string) {
+	t, err := template.New("t").Parse(tpl)
+	if err != nil {
+		return "ERR", nil
+	}
+	var toks []string
+	var walk func(n parse.Node)
+	walk = func(n parse.Node) {
+		if n == nil || reflect.ValueOf(n).IsNil() {
+			return
+		}
+		switch x := n.(type) {
+		case *parse.ListNode:
+			for _, c := range x.Nodes {
+				walk(c)
+			}
+		case *parse.ActionNode:
+			for _, cmd := range x.Pipe.Cmds {
+				for _, a := range cmd.Args {
+					walk(a)
+				}
+			}
+		case *parse.TextNode:
+			toks = append(toks, "T:"+h.Hex(x.Text))
+		case *parse.FieldNode:
+			toks = append(toks, "F:"+hx(x.Ident[0]))
+			names = append(names, x.Ident[0])
+		}
+	}
+	walk(t.Root)
+	if len(toks) == 0 {
+		return "-", nil
+	}
+	return strings.Join(toks, ";"), names
+}
+
+func c14GenTemplate(r *h.Rng) string {
+	var sb strings.Builder
+	for i, n := 0, r.Range(0, 5); i < n; i++ {
+		switch r.Intn(9) {
+		case 0, 1, 2:
+			sb.WriteString(h.Pick(r, []string{"x", " ", "a b", "'", "\\", "{", "}", "{0}", "é", "\"", "lvl=", "%s", "\n", "{ {"}))
+		case 3, 4, 5:
+			sb.WriteString("{{." + h.Pick(r, []string{"a", "b", "lvl", "x_y", "A1"}) + "}}")
+		case 6:
+			sb.WriteString(h.Pick(r, []string{"{{ .a }}", "{{.a.b}}", "{{.a | lower}}", "{{.}}", "{{if .a}}y{{end}}", "{{lower .a}}", "{{\"s\"}}", "{{/* c */}}"}))
+		case 7:
+			sb.WriteString("{{." + r.Ident(6) + "}}")
+		default:
+			if r.Chance(15) {
+				sb.WriteString(h.Pick(r, []string{"{{.a", "{{end}}", "{{.a b c", "{{nofunc .a}}"}))
+			} else {
+				sb.WriteString(string(r.Bytes(4)))
+			}
+		}
+	}
+	return sb.String()
+}
+
+func c14RunFmt(r *h.Result, cs c14FmtCase) (op, impl string) {
+	ser, names := c14TplLeaves(cs.Template)
+	p := &clickhouse_planner.LineFormatPlanner{Template: cs.Template}
+	ptr := reflect.ValueOf(p)
+	var outs []string
+	for i := 0; i < cs.K; i++ {
+		if cs.Dirty && i > 0 {
+			c14Set(ptr, "formatStr", "GARBAGE")
+			c14Set(ptr, "args", []sql.SQLObject{sql.NewRawObject("G"), sql.NewRawObject("M")})
+		}
+		var err error
+		func() {
+			defer func() {
+				if e := recover(); e != nil {
+					err = fmt.Errorf("panic: %v", e)
+				}
+			}()
+			err = p.ProcessTpl(pctx(1700000000e9, 1700000300e9, false, 1, 0))
+		}()
+		if err != nil {
+			outs = append(outs, "ERR")
+			continue
+		}
+		f := reflect.NewAt(ptr.Elem().FieldByName("formatStr").Type(), unsafe.Pointer(ptr.Elem().FieldByName("formatStr").UnsafeAddr())).Elem().String()
+		av := ptr.Elem().FieldByName("args")
+		av = reflect.NewAt(av.Type(), unsafe.Pointer(av.UnsafeAddr())).Elem()
+		args, _ := av.Interface().([]sql.SQLObject)
+		var as []string
+		for j, a := range args {
+			text, err := a.String(sql.DefaultCtx())
+			want := ""
+			if j < len(names) {
+				q, _ := sql.NewStringVal(names[j]).String(sql.DefaultCtx())
+				want = "labels[" + q + "]"
+			}
+			if err != nil || text != want || j >= len(names) {
+				as = append(as, "MISMATCH:"+hx(text))
+			} else {
+				as = append(as, hx(names[j]))
+			}
+		}
+		a := "-"
+		if len(as) > 0 {
+			a = strings.Join(as, ".")
+		}
+		outs = append(outs, c14HexOrDash(f)+":"+a)
+	}
+	if ser == "ERR" {
+		r.Count("fmt-model:template-parse-error")
+	} else {
+		r.Count(fmt.Sprintf("fmt-model:fields=%d", len(names)))
+	}
+	return fmt.Sprintf("c14fmt %d %d %s", b2i(cs.Dirty), cs.K, ser), strings.Join(outs, ",")
+}
+
+func c14HexOrDash(s string) string {
+	if s == "" {
+		return "-"
+	}
+	return hx(s)
+}
+
+func c14FmtModel(r *h.Result, rng *h.Rng, n int) error {
+	r.Stream("fmt-model: one real LineFormatPlanner object, ProcessTpl ×2–4 (50 %: formatStr/args set to garbage by reflection before calls 2..k), the fields read back by reflection vs LogQL.processTpl on the leaves the template parser yields (text/template is shared); templates with text, fields, pipelines, control actions, parse errors")
+	var ops, impl []string
+	var cases []any
+	for i := 0; i < n; i++ {
+		cs := c14FmtCase{Stream: "fmt-model", Template: c14GenTemplate(rng), K: rng.Range(2, 4), Dirty: rng.Bool()}
+		op, im := c14RunFmt(r, cs)
+		r.Case("fmt-model:"+cs.Template+fmt.Sprint(cs.K, cs.Dirty), true)
+		ops, impl, cases = append(ops, op), append(impl, im), append(cases, cs)
+	}
+	return r.Compare("fmt-model", ops, impl, cases)
+}
